@@ -18,6 +18,17 @@ pub struct FixedSizeBinaryDeserializer<'a> {
 impl<'a> FixedSizeBinaryDeserializer<'a> {
     pub fn new(path: String, view: FixedSizeBinaryView<'a>) -> Result<Self> {
         let n = usize::try_from(view.n)?;
+        if n == 0 {
+            if !view.data.is_empty() {
+                fail!("Invalid FixedSizeBinary array: non-empty data for elements of size 0");
+            }
+            return Ok(Self {
+                path,
+                len: 0,
+                view,
+                n,
+            });
+        }
         if view.data.len() % n != 0 {
             fail!(
                 concat!(
